@@ -392,11 +392,10 @@ func matchesFunc(arg1, arg2 query) func(query, iterator) interface{} {
 		case string:
 			s = typ
 		case query:
-			node := typ.Select(t)
-			if node == nil {
-				return ""
+			// An empty node-set is the empty string, which a pattern may match.
+			if node := typ.Select(t); node != nil {
+				s = node.Value()
 			}
-			s = node.Value()
 		}
 		var pattern string
 		var ok bool
